@@ -654,6 +654,7 @@ Section Protocol.
       destruct (k_unspawned _ _ _ _ H _ Esp) as [P0 I0].
       apply Inv_upd_same; [apply Inv_ovisit; auto | rewrite P0; reflexivity | rewrite I0; reflexivity | | discriminate].
       intros X. destruct (phase (ws st (wof c (sid s)))); discriminate.
+    - (* ONext *) des S; inv_some S; exact H.
   Qed.
 
   Lemma exec_SInv : forall tr st st', SInv st -> exec c st tr = Some st' -> SInv st'.
@@ -730,6 +731,7 @@ Section Protocol.
       - des S; inv_some S; exact Ia.
       - des S; inv_some S; exact Ia.
       - des S; inv_some S; cbn; apply (proj1 HI); auto; eapply nth_error_In'; eauto.
+      - des S; inv_some S; exact Ia.
     Qed.
 
     Lemma reach_stable : I init -> forall st, reach c st -> I (o st).
@@ -880,6 +882,7 @@ Section Protocol.
     - des S; inv_some S; xsolve HX.
     - des S; inv_some S; xsolve HX.
     - des S; inv_some S; unfold XInv; cbn; split; intros X; discriminate X.
+    - des S; inv_some S; xsolve HX.
   Qed.
 
   Lemma reach_XInv : forall st, reach c st -> XInv st.
